@@ -305,7 +305,7 @@ func check(p *propCfg, tier string) int {
 		go func(w int) {
 			defer wg.Done()
 			job := &sim.Job{Mode: "explore", Property: p.ID, Tier: tier, Seed: seed, Worker: w, Workers: workers, Runs: tc.Runs,
-				Deadline: deadline, OutDir: outDir, MaxViol: 2, Known: known, ShrinkSecs: 20, Batch: p.Batch}
+				Deadline: deadline, OutDir: outDir, MaxViol: envInt("VERIF_MAXVIOL", 2), Known: known, ShrinkSecs: envInt("VERIF_SHRINK_S", 20), Batch: p.Batch}
 			exits[w] = runWorker(bin, job, p)
 		}(w)
 	}
@@ -463,7 +463,7 @@ func firstLines(s string, n int) string {
 
 func isKnown(known []sim.KnownFinding, id, key string) bool {
 	for _, k := range known {
-		if k.Property == id && k.Kind == "finding" && k.Key == key {
+		if k.Property == id && k.Kind == "finding" && k.Key != "" && strings.Contains(key, k.Key) {
 			return true
 		}
 	}
@@ -682,4 +682,11 @@ func selftestN() int {
 		return v
 	}
 	return 64
+}
+
+func envInt(name string, def int) int {
+	if v, err := strconv.Atoi(os.Getenv(name)); err == nil && v > 0 {
+		return v
+	}
+	return def
 }
